@@ -149,6 +149,17 @@ CLAIMS["C20"] = dict(
               "subset; D7 (assertion at end of input) was found by reading and is fixed (commit acf28c8). NOT covered: 'enabling an "
               "extension changes the parse only of documents that contain its syntax' (parser-level).")
 
+CLAIMS["C05"] = dict(
+    text="Proof of the position-carrying primitives only (a fragment of the property): MarkdownToken.__init__ gives a token built from a "
+         "position marker exactly (marker.line_number, marker.index_number + marker.index_indent + 1); report_next_token_error / "
+         "report_next_line_error report exactly the token's (or the line's) position plus the rule's explicit deltas, once; the scanning "
+         "primitives the column arithmetic is built from (is_character_at_index*, extract_spaces, extract_until_spaces, "
+         "collect_while_character) are index-safe, terminate (variant) and return exactly the maximal run from the start index (loop "
+         "invariants, no bound); adjust_for_newlines adds the number of characters after the last newline.",
+    note=TB + "NOT covered: which marker each of the ~30 token kinds is built from and the per-construct delta arithmetic of the inline "
+              "processor (not within reach: those functions are outside the subset); block tokens in non-decreasing line order; 'the source "
+              "text at that position is the opening text'. A change to one of those is NOT detected by this check.")
+
 NA = {
     "C01": "totality of the ~60 kLoC parser is a postcondition of TokenizedMarkdown.transform; no contract chain within reach without a Python deductive verifier (DESIGN.md 7)",
     "C02": "round-trip of parser + 5 kLoC regenerator needs the token stream specified as an encoding of the document (C03+C04+C05 in full) first (DESIGN.md 7)",
